@@ -115,20 +115,328 @@ Definition f_m1em17 : f64 := of_bits 0xBC670EF54646D497.   (* -1e-17 *)
 
 Lemma wrap_raw_hits_L :
   exists x L : f64, ffinite x = true /\ ffinite L = true /\ 0 < B2R L /\
-    exists m, wrap_raw x L = Some m /\ feqb_bits m L = true /\
-    wrap x L = Some fzero.
+    match wrap_raw x L with Some m => feqb_bits m L | None => false end = true /\
+    match wrap x L with Some w => feqb_bits w fzero | None => false end = true.
 Proof.
   exists f_m1em17, fone. split; [vm_compute; reflexivity|]. split; [apply fone_finite|].
-  split; [rewrite fone_R; lra|].
-  assert (exists m, wrap_raw f_m1em17 fone = Some m) as [m Em].
-  { destruct (wrap_raw f_m1em17 fone) eqn:E; [eexists; reflexivity|vm_compute in E; discriminate]. }
-  exists m. split; [exact Em|]. split.
-  - assert (H : match wrap_raw f_m1em17 fone with Some m => feqb_bits m fone | None => false end = true)
-      by (vm_compute; reflexivity).
-    rewrite Em in H. exact H.
-  - assert (H : match wrap f_m1em17 fone with Some m => feqb_bits m fzero | None => false end = true)
-      by (vm_compute; reflexivity).
-    destruct (wrap f_m1em17 fone) as [w|] eqn:Ew; [|discriminate].
-    f_equal. unfold feqb_bits in H. apply sf_eqb_eq in H.
-    apply (B2SF_inj 53 1024). exact H.
+  split; [rewrite fone_R; lra|]. split; vm_compute; reflexivity.
+Qed.
+
+(** ** correct_separation_entry *)
+Lemma ftwo_R : B2R ftwo = 2.
+Proof. unfold ftwo. simpl. unfold F2R; simpl. lra. Qed.
+
+Lemma half_spec : forall L : f64, ffinite L = true ->
+  B2R (half L) = RN (B2R L / 2) /\ ffinite (half L) = true.
+Proof.
+  intros L FL. unfold half.
+  assert (N2 : B2R ftwo <> 0) by (rewrite ftwo_R; lra).
+  destruct (fdiv_spec L ftwo FL N2) as [V F].
+  - rewrite ftwo_R. apply (RN_no_overflow_le L).
+    unfold Rdiv. rewrite Rabs_mult. rewrite (Rabs_pos_eq (/ 2)) by lra.
+    generalize (Rabs_pos (B2R L)). lra.
+  - rewrite ftwo_R in V. split; assumption.
+Qed.
+
+(** Halving is exact for every system length of at least 2^-1021 (no bit is lost to underflow). *)
+Lemma half_exact : forall L : f64, ffinite L = true -> bpow radix2 (-1021) <= B2R L ->
+  B2R (half L) = B2R L / 2.
+Proof.
+  intros L FL HL. destruct (half_spec L FL) as [V _]. rewrite V. apply RN_id.
+  destruct L as [s|s| |s m e H]; try discriminate.
+  - exfalso. simpl in HL. generalize (bpow_gt_0 radix2 (-1021)). lra.
+  - destruct (bounded_inv _ _ H) as [Bm Be].
+    assert (E1 : (-1073 <= e)%Z).
+    { destruct (Z_le_dec (-1073) e) as [Y|N]; [exact Y|exfalso].
+      assert (e = (-1074)%Z) by lia. subst e.
+      assert (A : Rabs (F2R (Float radix2 (cond_Zopp s (Z.pos m)) (-1074))) < bpow radix2 (-1021)).
+      { apply F2R_lt_bpow. simpl Fnum. simpl Fexp. rewrite abs_cond_Zopp.
+        change (radix2 ^ (-1021 - -1074))%Z with (2 ^ 53)%Z. simpl Z.abs. exact Bm. }
+      unfold B2R in HL. apply Rabs_lt_inv in A. lra. }
+    apply generic_format_FLT. exists (Float radix2 (cond_Zopp s (Z.pos m)) (e - 1)).
+    + simpl B2R. unfold F2R. simpl Fnum. simpl Fexp.
+      unfold Zminus. rewrite bpow_plus. change (bpow radix2 (- (1))) with (/ 2). field.
+    + simpl Fnum. rewrite abs_cond_Zopp. simpl Z.abs. exact Bm.
+    + simpl Fexp. lia.
+Qed.
+
+Lemma sep_spec : forall s L : f64,
+  ffinite s = true -> ffinite L = true -> 0 < B2R L ->
+  B2R (half L) = B2R L / 2 ->
+  Rabs (B2R s) + B2R L <= bpow radix2 1023 ->
+  exists (d : f64) (k : Z),
+    sep s L = Some d /\ ffinite d = true /\
+    Rabs (B2R d) <= B2R L / 2 /\
+    Rabs (B2R d - (B2R s - IZR k * B2R L)) <= / 2 * ulp64 (B2R s + B2R L / 2) + ulp64 (B2R L).
+Proof.
+  intros s L Fs FL PL HE NO.
+  destruct (half_spec L FL) as [_ Fh].
+  set (Lh := half L) in *.
+  (* a = fl(s + L/2) *)
+  assert (NOa : Rabs (RN (B2R s + B2R Lh)) < bpow radix2 1024).
+  { apply Rle_lt_trans with (bpow radix2 1023); [|apply bpow_lt; lia].
+    apply abs_round_le_generic; auto with typeclass_instances.
+    - apply generic_format_bpow. unfold FLT_exp. lia.
+    - apply Rle_trans with (1 := Rabs_triang _ _). rewrite HE.
+      rewrite (Rabs_pos_eq (B2R L / 2)) by lra. lra. }
+  destruct (fadd_spec s Lh Fs Fh NOa) as [Va Fa].
+  set (a := fadd s Lh) in *.
+  destruct (py_mod_pos a L Fa FL PL) as (m & k & E & Fm & Sm & Rv & Vm & _).
+  set (v := B2R a - IZR k * B2R L) in *.
+  assert (Bm : 0 <= B2R m <= B2R L).
+  { rewrite Vm. change 0 with (B2R fzero). apply RN_between. simpl. lra. }
+  (* d = fl(m - L/2) *)
+  assert (Bd : Rabs (B2R m - B2R Lh) <= B2R Lh).
+  { rewrite HE. apply Rabs_le. lra. }
+  assert (PLh : 0 <= B2R Lh) by (rewrite HE; lra).
+  assert (Rd : Rabs (RN (B2R m - B2R Lh)) <= B2R Lh).
+  { apply abs_round_le_generic; auto with typeclass_instances. apply fmt_B2R. }
+  destruct (fsub_spec m Lh Fm Fh) as [Vd Fd].
+  { apply Rle_lt_trans with (1 := Rd). rewrite <- (Rabs_pos_eq _ PLh). apply B2R_lt_emax. }
+  exists (fsub m Lh), k.
+  split; [unfold sep; fold Lh; fold a; rewrite E; reflexivity|].
+  split; [exact Fd|]. split; [rewrite Vd, <- HE; exact Rd|].
+  rewrite Vd.
+  replace (RN (B2R m - B2R Lh) - (B2R s - IZR k * B2R L))
+    with ((RN (B2R m - B2R Lh) - (B2R m - B2R Lh)) + (B2R m - v) + (B2R a - (B2R s + B2R Lh)))
+    by (unfold v; ring).
+  apply Rle_trans with (1 := Rabs_triang _ _).
+  apply Rle_trans with (Rabs (RN (B2R m - B2R Lh) - (B2R m - B2R Lh)) + Rabs (B2R m - v) + Rabs (B2R a - (B2R s + B2R Lh))).
+  { apply Rplus_le_compat_r. apply Rabs_triang. }
+  assert (E3 : Rabs (RN (B2R m - B2R Lh) - (B2R m - B2R Lh)) <= / 2 * ulp64 (B2R L)).
+  { apply Rle_trans with (1 := RN_err _). apply Rmult_le_compat_l; [lra|].
+    apply ulp64_le. rewrite (Rabs_pos_eq (B2R L)) by lra. lra. }
+  assert (E2 : Rabs (B2R m - v) <= / 2 * ulp64 (B2R L)).
+  { rewrite Vm. apply Rle_trans with (1 := RN_err _). apply Rmult_le_compat_l; [lra|].
+    apply ulp64_le. rewrite !Rabs_pos_eq by lra. lra. }
+  assert (E1 : Rabs (B2R a - (B2R s + B2R Lh)) <= / 2 * ulp64 (B2R s + B2R L / 2)).
+  { rewrite Va, HE. apply RN_err. }
+  lra.
+Qed.
+
+Lemma sep_bound : forall s L d : f64,
+  ffinite s = true -> ffinite L = true -> 0 < B2R L ->
+  B2R (half L) = B2R L / 2 -> Rabs (B2R s) + B2R L <= bpow radix2 1023 ->
+  sep s L = Some d -> ffinite d = true /\ Rabs (B2R d) <= B2R L / 2.
+Proof.
+  intros s L d Fs FL PL HE NO E.
+  destruct (sep_spec s L Fs FL PL HE NO) as (d' & k & E' & Fd & B & _).
+  rewrite E in E'. injection E' as ->. split; assumption.
+Qed.
+
+Lemma sep_congruent : forall s L d : f64,
+  ffinite s = true -> ffinite L = true -> 0 < B2R L ->
+  B2R (half L) = B2R L / 2 -> Rabs (B2R s) + B2R L <= bpow radix2 1023 ->
+  sep s L = Some d ->
+  exists k : Z,
+    Rabs (B2R d - (B2R s - IZR k * B2R L)) <= / 2 * ulp64 (B2R s + B2R L / 2) + ulp64 (B2R L).
+Proof.
+  intros s L d Fs FL PL HE NO E.
+  destruct (sep_spec s L Fs FL PL HE NO) as (d' & k & E' & _ & _ & C).
+  rewrite E in E'. injection E' as ->. exists k. exact C.
+Qed.
+
+(** Documentation: for a subnormal system length with an odd number of units, L/2 is not
+    representable and the bound by L/2 fails (L = 3 * 2^-1074, s = 2^-1074: |sep| = 2 * 2^-1074). *)
+Definition f_u1 : f64 := of_bits 1.
+Definition f_u2 : f64 := of_bits 2.
+Definition f_u3 : f64 := of_bits 3.
+Lemma sep_bound_tiny_L_refuted :
+  exists s L : f64, ffinite s = true /\ ffinite L = true /\ 0 < B2R L /\
+    match sep s L with Some d => feqb_bits d (fopp f_u2) | None => false end = true /\
+    B2R L / 2 < Rabs (B2R (fopp f_u2)).
+Proof.
+  exists f_u1, f_u3. split; [vm_compute; reflexivity|]. split; [vm_compute; reflexivity|].
+  assert (R3 : B2R f_u3 = 3 * bpow radix2 (-1074)).
+  { unfold f_u3. b2r (of_bits 3). unfold F2R. simpl Fnum. simpl Fexp. simpl cond_Zopp. lra. }
+  assert (R2 : B2R (fopp f_u2) = - (2 * bpow radix2 (-1074))).
+  { unfold fopp. rewrite B2R_Bopp. unfold f_u2. b2r (of_bits 2). unfold F2R. simpl Fnum. simpl Fexp. simpl cond_Zopp. lra. }
+  generalize (bpow_gt_0 radix2 (-1074)). intros P.
+  split; [rewrite R3; lra|]. split; [vm_compute; reflexivity|].
+  rewrite R3, R2, Rabs_Ropp, Rabs_pos_eq by lra. lra.
+Qed.
+
+(** ** Vectors *)
+Lemma all_some_Forall2 : forall {A B : Type} (f : A -> option B) (l : list A) (out : list B),
+  all_some (map f l) = Some out -> Forall2 (fun x w => f x = Some w) l out.
+Proof.
+  intros A B f l. induction l as [|a l IH]; simpl; intros out H.
+  - injection H as <-. constructor.
+  - destruct (f a) as [b|] eqn:E; [|discriminate].
+    destruct (all_some (map f l)) as [r|] eqn:E2; [|discriminate].
+    injection H as <-. constructor; [exact E|apply IH; reflexivity].
+Qed.
+
+Lemma Forall2_all_some : forall {A B : Type} (f : A -> option B) (l : list A) (out : list B),
+  Forall2 (fun x w => f x = Some w) l out -> all_some (map f l) = Some out.
+Proof.
+  intros A B f l out H. induction H; simpl; [reflexivity|]. rewrite H, IHForall2. reflexivity.
+Qed.
+
+Lemma Forall2_Forall_out : forall {A B : Type} (R : A -> B -> Prop) (P : A -> Prop) (Q : B -> Prop),
+  (forall a b, P a -> R a b -> Q b) ->
+  forall l out, Forall2 R l out -> Forall P l -> Forall Q out.
+Proof.
+  intros A B R P Q H l out F2. induction F2; intros FP; constructor; inversion FP; subst; eauto.
+Qed.
+
+Lemma Forall2_len : forall {A B : Type} (R : A -> B -> Prop) l out, Forall2 R l out -> length l = length out.
+Proof. intros A B R l out H. induction H; simpl; congruence. Qed.
+
+Definition in_box (L p : f64) : Prop := ffinite p = true /\ 0 <= B2R p < B2R L.
+
+(** [correct_position]: every corrected entry lies in [0, L). *)
+Lemma cubic_correct_position_range : forall (L : f64) (pos out : list f64),
+  ffinite L = true -> 0 < B2R L -> Forall (fun x => ffinite x = true) pos ->
+  cubic_correct_position L pos = Some out ->
+  length out = length pos /\ Forall (in_box L) out.
+Proof.
+  intros L pos out FL PL Fp H. apply all_some_Forall2 in H. split.
+  - symmetry. eapply Forall2_len; eassumption.
+  - eapply Forall2_Forall_out; [|exact H|exact Fp].
+    intros x w Fx E. simpl in E. apply (wrap_range x L w Fx FL PL E).
+Qed.
+
+Lemma cubic_correct_position_defined : forall (L : f64) (pos : list f64),
+  ffinite L = true -> 0 < B2R L -> Forall (fun x => ffinite x = true) pos ->
+  exists out, cubic_correct_position L pos = Some out.
+Proof.
+  intros L pos FL PL Fp. unfold cubic_correct_position. induction Fp; simpl.
+  - eexists; reflexivity.
+  - destruct (wrap_defined x L H FL PL) as [w ->]. destruct IHFp as [r ->]. eexists; reflexivity.
+Qed.
+
+Lemma cubic_correct_position_idempotent : forall (L : f64) (pos out : list f64),
+  ffinite L = true -> 0 < B2R L -> Forall (fun x => ffinite x = true) pos ->
+  cubic_correct_position L pos = Some out -> cubic_correct_position L out = Some out.
+Proof.
+  intros L pos out FL PL Fp H. apply all_some_Forall2 in H.
+  apply Forall2_all_some.
+  induction H; [constructor|]. inversion Fp; subst. constructor; [|auto].
+  apply (wrap_idempotent x L y); assumption.
+Qed.
+
+(** [separation_vector] of two positions in the box: every component is bounded by L/2. *)
+Lemma raw_separation_in_box : forall (dim : nat) (L : f64) (ref tgt : list f64),
+  ffinite L = true ->
+  length ref = dim -> length tgt = dim -> Forall (in_box L) ref -> Forall (in_box L) tgt ->
+  Forall (fun s => ffinite s = true /\ Rabs (B2R s) < B2R L) (raw_separation dim ref tgt).
+Proof.
+  intros dim L ref tgt FL Lr Lt Br Bt. unfold raw_separation.
+  apply Forall_forall. intros s Hs. apply in_map_iff in Hs. destruct Hs as (i & <- & Hi).
+  apply in_seq in Hi. simpl in Hi.
+  assert (Ir : in_box L (nth i ref fnan)).
+  { apply (proj1 (Forall_forall _ _) Br). apply nth_In. lia. }
+  assert (It : in_box L (nth i tgt fnan)).
+  { apply (proj1 (Forall_forall _ _) Bt). apply nth_In. lia. }
+  destruct Ir as [Fr Rr], It as [Ft Rt].
+  assert (B : Rabs (B2R (nth i tgt fnan) - B2R (nth i ref fnan)) <= Rabs (B2R L)).
+  { rewrite (Rabs_pos_eq (B2R L)) by lra. apply Rabs_le. lra. }
+  destruct (fsub_spec _ _ Ft Fr (RN_no_overflow_le L _ B)) as [V F].
+  split; [exact F|]. rewrite V.
+  (* strictness: the exact difference is strictly inside (-L, L) and both bounds are floats *)
+  assert (S1 : - B2R L <= RN (B2R (nth i tgt fnan) - B2R (nth i ref fnan)) <= B2R L).
+  { rewrite <- (B2R_Bopp 53 1024 L). apply RN_between. rewrite B2R_Bopp. lra. }
+  destruct S1 as [S1 S2].
+  destruct (Req_dec (RN (B2R (nth i tgt fnan) - B2R (nth i ref fnan))) (B2R L)) as [E|NE1].
+  { (* RN(t - r) = L would need t - r >= L - ulp/2, but t - r <= t < L and t is a float *)
+    exfalso.
+    assert (RN (B2R (nth i tgt fnan) - B2R (nth i ref fnan)) <= B2R (nth i tgt fnan)).
+    { rewrite <- (RN_B2R (nth i tgt fnan)) at 2. apply RN_le. lra. }
+    lra. }
+  destruct (Req_dec (RN (B2R (nth i tgt fnan) - B2R (nth i ref fnan))) (- B2R L)) as [E|NE2].
+  { exfalso.
+    assert (- B2R (nth i ref fnan) <= RN (B2R (nth i tgt fnan) - B2R (nth i ref fnan))).
+    { rewrite <- (B2R_Bopp 53 1024 (nth i ref fnan)).
+      rewrite <- (RN_B2R (Bopp (nth i ref fnan))) at 1. apply RN_le. rewrite B2R_Bopp. lra. }
+    lra. }
+  apply Rabs_lt. lra.
+Qed.
+
+Lemma cubic_separation_vector_bound : forall (dim : nat) (L : f64) (ref tgt out : list f64),
+  ffinite L = true -> 0 < B2R L -> B2R (half L) = B2R L / 2 -> B2R L <= bpow radix2 1022 ->
+  length ref = dim -> length tgt = dim -> Forall (in_box L) ref -> Forall (in_box L) tgt ->
+  cubic_separation_vector dim L ref tgt = Some out ->
+  length out = dim /\ Forall (fun d => ffinite d = true /\ Rabs (B2R d) <= B2R L / 2) out.
+Proof.
+  intros dim L ref tgt out FL PL HE HB Lr Lt Br Bt H.
+  generalize (raw_separation_in_box dim L ref tgt FL Lr Lt Br Bt). intros Fraw.
+  unfold cubic_separation_vector, cubic_correct_separation in H.
+  apply all_some_Forall2 in H. split.
+  - rewrite <- (Forall2_len _ _ _ H). unfold raw_separation. rewrite map_length, seq_length. reflexivity.
+  - eapply Forall2_Forall_out; [|exact H|exact Fraw].
+    intros s d [Fs Bs] E. simpl in E.
+    apply (sep_bound s L d Fs FL PL HE); [|exact E].
+    change (bpow radix2 1023) with (bpow radix2 (1022 + 1)). rewrite bpow_plus.
+    change (bpow radix2 1) with 2. lra.
+Qed.
+
+(** ** The cubic and the cuboid classes agree when all lengths are equal. *)
+Lemma nth_error_repeat' : forall {A : Type} (a : A) (n i : nat), (i < n)%nat -> nth_error (repeat a n) i = Some a.
+Proof.
+  intros A a n. induction n; intros i H; [lia|]. destruct i; simpl; [reflexivity|]. apply IHn. lia.
+Qed.
+
+Lemma cuboid_wrap_entry_equal : forall L n x i, (i < n)%nat ->
+  cuboid_wrap_entry (repeat L n) x i = wrap x L.
+Proof. intros. unfold cuboid_wrap_entry. rewrite nth_error_repeat' by assumption. reflexivity. Qed.
+
+Lemma cuboid_sep_entry_equal : forall L n s i, (i < n)%nat ->
+  cuboid_sep_entry (repeat L n) s i = sep s L.
+Proof. intros. unfold cuboid_sep_entry. rewrite nth_error_repeat' by assumption. reflexivity. Qed.
+
+Lemma enumerate_map_equal : forall {B : Type} (f : f64 -> option B) (g : nat -> f64 -> option B) (n : nat),
+  (forall x i, (i < n)%nat -> g i x = f x) ->
+  forall (l : list f64) (i : nat), (i + length l <= n)%nat ->
+  map (fun ix => g (fst ix) (snd ix)) (enumerate_from i l) = map f l.
+Proof.
+  intros B f g n H l. induction l as [|a l IH]; intros i Hi; simpl; [reflexivity|].
+  simpl in Hi. rewrite H by lia. f_equal. apply IH. lia.
+Qed.
+
+Lemma cuboid_correct_position_equal : forall L n pos, (length pos <= n)%nat ->
+  cuboid_correct_position (repeat L n) pos = cubic_correct_position L pos.
+Proof.
+  intros L n pos H. unfold cuboid_correct_position, cubic_correct_position. f_equal.
+  apply (enumerate_map_equal (fun x => wrap x L) (fun i x => cuboid_wrap_entry (repeat L n) x i) n).
+  - intros x i Hi. apply cuboid_wrap_entry_equal, Hi.
+  - simpl. exact H.
+Qed.
+
+Lemma cuboid_correct_separation_equal : forall L n v, (length v <= n)%nat ->
+  cuboid_correct_separation (repeat L n) v = cubic_correct_separation L v.
+Proof.
+  intros L n v H. unfold cuboid_correct_separation, cubic_correct_separation. f_equal.
+  apply (enumerate_map_equal (fun x => sep x L) (fun i x => cuboid_sep_entry (repeat L n) x i) n).
+  - intros x i Hi. apply cuboid_sep_entry_equal, Hi.
+  - simpl. exact H.
+Qed.
+
+Lemma cuboid_separation_vector_equal : forall L n ref tgt,
+  cuboid_separation_vector (repeat L n) ref tgt = cubic_separation_vector n L ref tgt.
+Proof.
+  intros L n ref tgt. unfold cuboid_separation_vector, cubic_separation_vector.
+  rewrite repeat_length. apply cuboid_correct_separation_equal.
+  unfold raw_separation. rewrite map_length, seq_length. lia.
+Qed.
+
+Lemma cuboid_next_image_equal : forall L n x i, (i < n)%nat ->
+  cuboid_next_image (repeat L n) x i = Some (cubic_next_image L x i).
+Proof. intros. unfold cuboid_next_image. rewrite nth_error_repeat' by assumption. reflexivity. Qed.
+
+Lemma cubic_eq_cuboid : forall (L : f64) (n : nat),
+  (forall x i, (i < n)%nat -> cuboid_wrap_entry (repeat L n) x i = wrap x L) /\
+  (forall s i, (i < n)%nat -> cuboid_sep_entry (repeat L n) s i = sep s L) /\
+  (forall x i, (i < n)%nat -> cuboid_next_image (repeat L n) x i = Some (cubic_next_image L x i)) /\
+  (forall pos, (length pos <= n)%nat -> cuboid_correct_position (repeat L n) pos = cubic_correct_position L pos) /\
+  (forall v, (length v <= n)%nat -> cuboid_correct_separation (repeat L n) v = cubic_correct_separation L v) /\
+  (forall ref tgt, cuboid_separation_vector (repeat L n) ref tgt = cubic_separation_vector n L ref tgt).
+Proof.
+  intros L n. repeat split; intros.
+  - apply cuboid_wrap_entry_equal; assumption.
+  - apply cuboid_sep_entry_equal; assumption.
+  - apply cuboid_next_image_equal; assumption.
+  - apply cuboid_correct_position_equal; assumption.
+  - apply cuboid_correct_separation_equal; assumption.
+  - apply cuboid_separation_vector_equal.
 Qed.
